@@ -33,6 +33,26 @@ pub fn native_sweep(seed: u64, thorough: bool, shard: usize, n: usize) -> Stats 
             }
         }
     }
+    // 1b. large images around block-size boundaries (64 KiB, 1 MiB, 2 MiB +- a few bytes); they open (plausible root
+    //     address), half of them carry a correct checksum
+    if shard == 0 {
+        for &base in [1usize << 16, 1 << 20, 2 << 20].iter() {
+            for d in 0..9usize {
+                let l = base + d - 3;
+                for fixed in 0..2 {
+                    let mut img = vec![0x5au8; l];
+                    img[..8].copy_from_slice(&3u64.to_le_bytes());
+                    img[8..16].copy_from_slice(&0u64.to_le_bytes());
+                    img[l - 12..l - 4].copy_from_slice(&((l - 21) as u64).to_le_bytes());
+                    img[l - 20..l - 12].copy_from_slice(&1u64.to_le_bytes());
+                    if fixed == 1 {
+                        untrusted::fix_checksum(&mut img);
+                    }
+                    untrusted::gate(&img, &mut st);
+                }
+            }
+        }
+    }
     // 2. random strings, lengths 0..512 (a third of them with a plausible version field)
     let nrand = if thorough { 20_000_000 } else { 1_000_000 } / n;
     for i in 0..nrand {
@@ -245,7 +265,7 @@ pub fn run(ctx: &Ctx) -> i32 {
         ev,
         Spec {
             level: "exploration",
-            rule: "one evaluation = one byte string pushed through the gate Fst::new / Map::new / Set::new, then on anything that opens len, is_empty, fst_type, size, as_bytes, to_vec, as_inner and verify(), all under catch_unwind; run in a release build AND in an optimised build with overflow checks and debug assertions (footer arithmetic differs); images: every length 0..64 x 7 version fields x 14x14 footer root/len boundary values x 3 fillings (~2.7*10^5; version-3 images additionally with a CORRECT recomputed checksum, so that verify() gets past its comparison), the same bytes also arriving through Fst::map_data / Map::map_data on a container opened from good bytes, 10^6 (thorough 2*10^7) random strings of length 0..512, every truncation / 5 single-byte mutations per offset / extensions of 50 (200) valid FSTs; Miri (undefined-behaviour interpreter) runs 16 shards of the same gate on boundary images plus bounded traversals (stream, get, range, search, set operation) of single-byte-mutated FSTs where a panic is allowed but undefined behaviour is not, and (thorough) a miniature of every public operation on valid inputs; the syntactic clause 'no unsafe code' is covered by an auxiliary NON-RUNTIME gate (the library must compile with -F unsafe_code); non-trivial = every image; distinct_nontrivial is counted conservatively (half of the native images + all Miri operations)",
+            rule: "one evaluation = one byte string pushed through the gate Fst::new / Map::new / Set::new, then on anything that opens len, is_empty, fst_type, size, as_bytes, to_vec, as_inner and verify(), all under catch_unwind; run in a release build AND in an optimised build with overflow checks and debug assertions (footer arithmetic differs); images: every length 0..64 x 7 version fields x 14x14 footer root/len boundary values x 3 fillings (~2.7*10^5; version-3 images additionally with a CORRECT recomputed checksum, so that verify() gets past its comparison), the same bytes also arriving through Fst::map_data / Map::map_data on a container opened from good bytes, 54 large images around 64 KiB / 1 MiB / 2 MiB +-3 bytes, 10^6 (thorough 2*10^7) random strings of length 0..512, every truncation / 5 single-byte mutations per offset / extensions of 50 (200) valid FSTs; Miri (undefined-behaviour interpreter) runs 16 shards of the same gate on boundary images plus bounded traversals (stream, get, range, search, set operation) of single-byte-mutated FSTs where a panic is allowed but undefined behaviour is not, and (thorough) a miniature of every public operation on valid inputs; the syntactic clause 'no unsafe code' is covered by an auxiliary NON-RUNTIME gate (the library must compile with -F unsafe_code); non-trivial = every image; distinct_nontrivial is counted conservatively (half of the native images + all Miri operations)",
             assumptions: vec!["root(), node() and traversals may panic on malformed data: the statement only makes open, metadata accessors and verify total".into(), "Miri cannot see through FFI; the library has none".into(), "a Miri or build-tool failure is INCONCLUSIVE, never a violation".into()],
             floors,
             exhaustive: Some(false),
